@@ -426,12 +426,14 @@ func (lb *LoadBalancer) processHealthCheckResponse(backend *Backend, resp *http.
 	}
 	wasUnhealthy := !backend.IsHealthy
 	backend.IsHealthy = true
-	backend.Mutex.Unlock()
-
-	// Update metrics to reflect healthy status
+	// Update metrics to reflect healthy status. This happens under the
+	// backend's lock, like in MarkBackendUnhealthy: otherwise an ejection that
+	// slips in between the flag update and the metrics update is overwritten
+	// and /metrics and /health report the ejected backend as healthy.
 	if lb.metricsCollector != nil {
 		lb.metricsCollector.UpdateBackendHealth(backend.Name, true)
 	}
+	backend.Mutex.Unlock()
 
 	if wasUnhealthy {
 		logging.L().Info().Str("backend", backend.Name).Msg("backend marked healthy via active check")
@@ -577,12 +579,12 @@ func (lb *LoadBalancer) IsBackendHealthy(backend *Backend) bool {
 		// Double-check after acquiring write lock to prevent race condition
 		if !backend.IsHealthy && time.Now().After(backend.UnhealthyUntil) {
 			backend.IsHealthy = true
-			backend.Mutex.Unlock()
-
-			// Update metrics to reflect healthy status
+			// Update metrics to reflect healthy status (under the lock, see
+			// processHealthCheckResponse)
 			if lb.metricsCollector != nil {
 				lb.metricsCollector.UpdateBackendHealth(backend.Name, true)
 			}
+			backend.Mutex.Unlock()
 
 			logging.L().Info().Str("backend", backend.Name).Msg("backend marked healthy")
 			return true
